@@ -109,10 +109,13 @@ fn main() {
             ev.nontrivial_keys = vec!["c17_status_pairs", "c17_step_pairs", "c17_side_pairs"];
         }
         "C20" => {
-            let (r, machinery) = e7::run(id, thorough);
+            let (r, machinery1) = e7::run(id, thorough);
             ev.families.push(r);
+            let (r2, machinery2) = e7::loom_b6(id, thorough);
+            ev.families.push(r2);
+            let machinery = machinery1 || machinery2;
             ev.nontrivial_rule = "one case = one child process (profile, stack size, ownership shape, history length N); non-trivial = runs whose history has at least 1e5 nodes (the lengths at which the unfixed recursive drop overflowed a 2 MiB stack were 2e4 (dev) / 8e4 (release))".into();
-            ev.nontrivial_keys = vec!["c20_runs_with_at_least_1e5_history_nodes"];
+            ev.nontrivial_keys = vec!["c20_runs_with_at_least_1e5_history_nodes", "c20_loom_executions"];
             ev.assumptions.push("recursion depth of a recursive drop grows monotonically with the history length, so the longest passing length covers the shorter ones; the 256 KiB rows bound per-node stack use".into());
             if machinery {
                 let _ = report::finish(&ev, t0.elapsed().as_secs_f64());
